@@ -1074,7 +1074,7 @@ def gen_add(rng, det, tags, p_bad=0.25, maxp=3, maxw=3, p_trig=0.6):
     return a
 
 
-def gen_filecase(rng, nadds, opts=None, det=None, p_bad=0.25, nsessions=None, p_trig=0.6):
+def gen_filecase(rng, nadds, opts=None, det=None, p_bad=0.25, nsessions=None, p_trig=0.6, p_nodet=0.08):
     det = det or rng.choice([1, 2, 2, 3, 4])
     opts = opts or gen_opts(rng)
     tags = Tags(rng)
@@ -1088,7 +1088,10 @@ def gen_filecase(rng, nadds, opts=None, det=None, p_bad=0.25, nsessions=None, p_
     for c in cuts + [nadds]:
         sessions.append(adds[prev:c])
         prev = c
-    return {"det": det, "opts": opts, "sessions": sessions}
+    fc = {"det": det, "opts": opts, "sessions": sessions}
+    if rng.random() < p_nodet:
+        fc["nodet"] = True       # set_detector is never called: every stage that needs the detector raises
+    return fc
 
 
 def all_adds(fc):
@@ -1594,6 +1597,8 @@ def _stats(stats, case, impl):
         stats.setdefault("require_trigger_forms", set()).add(json.dumps(o["require_trigger"]))
         stats.setdefault("detector_sizes", set()).add(fc["det"])
         stats["sessions_max"] = max(stats.get("sessions_max", 0), len(fc["sessions"]))
+        if fc.get("nodet"):
+            stats["files_without_detector"] = stats.get("files_without_detector", 0) + 1
         stats["adds_max"] = max(stats.get("adds_max", 0), len(rec["outcomes"]))
         stats["adds"] = stats.get("adds", 0) + len(rec["outcomes"])
         for a, oc in zip(all_adds(fc), rec["outcomes"]):
